@@ -19,7 +19,12 @@
 
    AsIs_UnconditionalUnshuffle reproduces the current code: the un-shuffle `scores[original_idx]` (model.py:312)
    and the re-shuffle `target[shuffled_idx]` (model.py:316) are applied although nothing was shuffled.
-   Mut_* are seeded design faults (sensitivity of the model). *)
+   Mut_* are seeded design faults (sensitivity of the model).
+
+   Configs: _quick (n<=4, thr {1/2, 1}), _mid (n<=4, + 0.3701), _thorough (n<=5, strict direction feature, thr
+   {1/4, 1/2}), _cov; _asis / _asis_fed / _asis_abort / _asis_pred (AsIs = TRUE: each names one invariant TLC must
+   refute), _asis_shuffled / _asis_shuffled4 (AsIs = TRUE restricted to shuffle = TRUE: everything holds),
+   _mut1.._mut3; _gen3 / _gen4 (every run as a CASE line), _gen4s / _gen5s (hash sample GenMod). *)
 EXTENDS TdcDef, TLC
 
 CONSTANTS MaxN,                          \* rows 2..MaxN
